@@ -523,7 +523,28 @@ def rule_shared_rx(R):
     _r(R)
 
 
+def rule_shared_decode(R):
+    """a PUBLISH is surfaced with the properties the broker sent: every property identifier decodes to its own variant -- C20's / C09's read table"""
+    from .c20 import rule_decode as _r
+    _r(R)
+
+
+def rule_property_cursor(R):
+    """a PUBLISH is surfaced with every property the broker sent: the iterator over the encoded block advances by exactly what each property occupied -- C08's clause"""
+    from .c08 import clause_property_cursor
+    clause_property_cursor(R, "props-iter")
+
+
+def rule_shared_store(R):
+    """every acknowledgement reaches the broker whole: an ack the transport accepted only in part is neither flushed nor dropped from its queue, its write resumes at the recorded offset -- C13's rule"""
+    from .c13 import rule_store as _r
+    _r(R)
+
+
 def run(R):
+    R.rule("store", rule_shared_store)
+    R.rule("props-iter", rule_property_cursor)
+    R.rule("decode", rule_shared_decode)
     R.rule("rx", rule_shared_rx)
     R.rule("surfaced", rule_surfaced)
     R.rule("ack", rule_ack)
